@@ -25,7 +25,10 @@ void map_case(unsigned lg, uint32_t h, uint64_t seed, bool fullBijection, Stats&
 	LMap m; m.lgWidth = lg; m.height = h; m.versionTag = 0x1011;
 	m.tiles.resize(n); uint64_t s = seed | 1;
 	for (size_t i = 0; i < n; ++i) { s ^= s << 13; s ^= s >> 7; s ^= s << 17; m.tiles[i] = (uint32_t(s >> 20) & ~uint32_t(0xFFE0)) | (uint32_t((i + seed) % 2048) << 5); }   // mapping index cycles through all 2048 values
-	for (unsigned i = 0; i < 2048; ++i) m.mappings.push_back({uint16_t(i * 31 + 7), uint16_t(65535 - i * 3), uint16_t(i & 7), uint16_t(i >> 4)});
+	for (unsigned i = 0; i < 2048; ++i) m.mappings.push_back({uint16_t(i % 3 == 0 ? (i / 3) % 10 : i * 31 + 7), uint16_t(i % 5 == 0 ? i % 40 : 65535 - i * 3), uint16_t(i & 7), uint16_t(i >> 4)});
+	// tileset sources the mapping entries may or may not point into: empty slots in front of, between and behind named ones, tile counts below,
+	// at and above the image indices in use (the accessors report the mapping entry, whatever the source list says)
+	{ unsigned ns = unsigned((seed >> 7) % 10); for (unsigned k = 0; k < ns; ++k) { refmap::Source src; if (((seed >> (12 + k)) & 1) == 0) { src.name = "ts" + std::to_string(k); const uint32_t counts[6] = {1, 7, 39, 40, 432, 70000}; src.numTiles = counts[(seed >> (24 + 3 * k)) % 6]; } m.sources.push_back(src); } }
 	Map map = load(m);
 	std::string ctx = "[width 2^" + std::to_string(lg) + " height " + std::to_string(h) + "]";
 	V_CHECK(map.WidthInTiles() == W && map.HeightInTiles() == h && map.TileCount() == n, ctx << " reported dimensions " << map.WidthInTiles() << "x" << map.HeightInTiles() << " count " << map.TileCount());
@@ -48,6 +51,13 @@ void map_case(unsigned lg, uint32_t h, uint64_t seed, bool fullBijection, Stats&
 		V_CHECK(map.GetTilesetIndex(x, y) == m.mappings[mi][0], ctx << " GetTilesetIndex(" << x << "," << y << ") = " << map.GetTilesetIndex(x, y) << " != mapping entry " << mi << " tileset " << m.mappings[mi][0]);
 		V_CHECK(map.GetImageIndex(x, y) == m.mappings[mi][1], ctx << " GetImageIndex(" << x << "," << y << ") = " << map.GetImageIndex(x, y) << " != mapping entry " << mi << " image " << m.mappings[mi][1]);
 	}
+	// the same after the source list was compacted (empty slots removed): the tiles and mapping entries are untouched, so are the accessors' answers
+	{ Map tm = map; tm.TrimTilesetSources();
+	  size_t named = 0; for (auto& sc : m.sources) if (!sc.name.empty()) ++named;
+	  V_CHECK(tm.tilesetSources.size() == named, ctx << " TrimTilesetSources left " << tm.tilesetSources.size() << " sources, " << named << " are named");
+	  for (uint64_t k = 0; k < 4096 && k < n; ++k) { size_t i = size_t((k * 2654435761ull) % n); uint64_t x, y; coord_of(i, h, x, y); uint32_t mi = refmap::tile_mapping(m.tiles[i]);
+	    V_CHECK(tm.GetTilesetIndex(x, y) == m.mappings[mi][0] && tm.GetImageIndex(x, y) == m.mappings[mi][1] && tm.GetTileMappingIndex(x, y) == mi, ctx << " after TrimTilesetSources the accessors at (" << x << "," << y << ") report tileset " << tm.GetTilesetIndex(x, y) << " image " << tm.GetImageIndex(x, y) << ", the mapping entry " << mi << " holds " << m.mappings[mi][0] << " / " << m.mappings[mi][1]); }
+	  st.cls("after_trim:" + std::to_string(named) + "_of_" + std::to_string(m.sources.size())); }
 	// bijection through the setter: spell each coordinate's linear id in base 32 into the cell-type field, read it back from tiles[]
 	if (fullBijection) {
 		for (unsigned round = 0; round < 4; ++round) {
